@@ -5,6 +5,7 @@ package scen
 
 import (
 	"fmt"
+	opb "github.com/google/fhir/go/proto/google/fhir/proto/r4/core/resources/observation_go_proto"
 	"time"
 
 	"github.com/verily-src/fhirpath-go/fhirpath"
@@ -44,12 +45,24 @@ func finger(m proto.Message) string {
 
 // sharedEval: n threads evaluate one shared compiled expression on one shared resource
 func sharedEval(name, src string, n int, opts func(t int) []fhirpath.EvaluateOption, copts ...fhirpath.CompileOption) Scenario {
+	return sharedEvalOn(name, src, n, func() fhir.Resource { return lib.Patient() }, opts, copts...)
+}
+
+// microObservation: an Observation whose effectiveDateTime and issued carry microseconds (finer than a System value keeps)
+func microObservation() fhir.Resource {
+	o := lib.Observation()
+	o.Effective = &opb.Observation_EffectiveX{Choice: &opb.Observation_EffectiveX_DateTime{DateTime: lib.ProtoDateTime("2020-03-04T10:20:30.123456Z")}}
+	o.Issued = lib.ProtoInstant("2020-03-04T10:20:30.654321+02:00")
+	return o
+}
+
+func sharedEvalOn(name, src string, n int, mk func() fhir.Resource, opts func(t int) []fhirpath.EvaluateOption, copts ...fhirpath.CompileOption) Scenario {
 	return Scenario{Name: name, Setup: func() *Instance {
 		e, err := fhirpath.Compile(src, copts...)
 		if err != nil {
 			panic("scenario " + name + ": " + err.Error())
 		}
-		res := lib.Patient()
+		res := mk()
 		in := []fhir.Resource{res}
 		before := finger(res)
 		inst := &Instance{Intact: func() string {
@@ -179,6 +192,7 @@ func All() []Scenario {
 				},
 			}}
 		}},
+		sharedEvalOn("S7-microsecond-elements", "Observation.effective > @2019-01-01T00:00:00Z and Observation.issued.toString().length() > 0 and Observation.effective.toString() = Observation.effective.toString()", 2, microObservation, pinned),
 		mixedEval("S6-division-scales", "0.00000000000000000007 / 2.0", "1 / 3"),
 		mixedEval("S6-division-decimal", "10.0 / 3.0", "0.000000000000000000000001 / 7"),
 		mixedEval("S6-conversions", "'3 days'.toQuantity('hours')", "'3 days'.toQuantity()"),
